@@ -106,6 +106,10 @@ type Program struct {
 	FinalWait bool `json:"final_wait"`
 	// GFX9 compiles with the gfx9/CDNA3 encodings (for the CDNA3 emulator)
 	GFX9 bool `json:"gfx9,omitempty"`
+	// NoWGID[d]: the code object does not enable the work-group id SGPR of dimension d (only
+	// legal when the grid has a single work-group along d, whose id is 0); the enabled ids then
+	// arrive packed into the SGPRs after the user SGPRs and the prologue moves them into place
+	NoWGID [3]bool `json:"no_wgid,omitempty"`
 	// TrailSLoad (0 = none): the program ends with an s_load_dword into this SGPR that nothing
 	// waits for (a line of output buffer 0 chosen by the work-group id): s_endpgm itself has to
 	// wait for it, or the data arrives in registers that already belong to another wavefront
@@ -272,6 +276,11 @@ func (p *Program) Validate() error {
 	}
 	if p.Slots < 1 || p.Slots > 4 {
 		return fmt.Errorf("slots out of range")
+	}
+	for d := 0; d < 3; d++ {
+		if p.NoWGID[d] && g.Grid[d] > uint32(g.WG[d]) {
+			return fmt.Errorf("work-group id %d disabled although the grid has several groups along it", d)
+		}
 	}
 	switch p.TrailSLoad {
 	case 0, 2, 8, 9, 10, 12, 22, 24:
